@@ -278,20 +278,18 @@ Section Pipeline.
     Ok (mkRes n4 (r_pnames old) (r_pnss old) (r_pkinds old) (r_prefixes old) (r_suffixes old)
               (r_needs_hash old && r_needs_hash r)).
 
-  (* Resource.MergeDataMapFrom / MergeBinaryDataMapFrom: entries of r win; a key lives in only one of the two maps
-     (/repo 0a87769): old data entries whose key r declares in binaryData are dropped, then old binaryData entries
-     whose key is in the merged data *)
-  Definition without_keys (m other : Generators.dict) : Generators.dict :=
-    filter (fun kv => negb (str_in (fst kv) (map fst other))) m.
+  (* Resource.MergeDataMapFrom / MergeBinaryDataMapFrom: entries of r win; a key r defines in the other map is dropped
+     from the old object's map (a key lives in only one of data / binaryData) *)
   Definition merge_data_from (r old : resource) : res resource :=
-    let d_new := Generators.dict_override
-                   (without_keys (node_pairs (map_field_value "data" (r_node old)))
-                                 (node_pairs (map_field_value "binaryData" (r_node r))))
-                   (node_pairs (map_field_value "data" (r_node r))) in
-    do n1 <- set_top_map "data" d_new (r_node r);
+    do n1 <- set_top_map "data"
+               (Generators.dict_override
+                  (Generators.dict_without (node_pairs (map_field_value "data" (r_node old)))
+                                           (node_pairs (map_field_value "binaryData" (r_node r))))
+                  (node_pairs (map_field_value "data" (r_node r)))) (r_node r);
     do n2 <- set_top_map "binaryData"
                (Generators.dict_override
-                  (without_keys (node_pairs (map_field_value "binaryData" (r_node old))) d_new)
+                  (Generators.dict_without (node_pairs (map_field_value "binaryData" (r_node old)))
+                                           (node_pairs (map_field_value "data" n1)))
                   (node_pairs (map_field_value "binaryData" (r_node r)))) n1;
     Ok (with_node r n2).
 
@@ -549,7 +547,7 @@ Section Pipeline.
     LegacySort.mkId (LegacySort.mkGvk (g_group (id_gvk id)) (g_version (id_gvk id)) (g_kind (id_gvk id)))
                     (id_ns id) (id_name id).
   Definition res_less (first last : list string) (a b : resource) : bool :=
-    LegacySort.legacy_less_g Gen.LegacyOrder.gen_ns_reversal_guarded first last (rid_of a) (rid_of b).
+    LegacySort.legacy_less_g LegacyOrder.gen_ns_reversal_guarded first last (rid_of a) (rid_of b).
   Definition sort_resources (o : psort) (m : list resource) : res (list resource) :=
     match o with
     | PSortNone | PSortFifo => Ok m
